@@ -24,6 +24,8 @@ def main():
     name = sys.argv[2] if len(sys.argv) > 2 else prop
     also = sys.argv[3:]
     wt = '/tmp/seed-' + (name if os.path.isdir('/tmp/seed-' + name) else prop)
+    if name.endswith('-2'):
+        wt = '/tmp/seed2-' + prop
     so = os.path.join(wt, 'seed_out')
     meta = json.load(open(os.path.join(so, 'meta.json')))
     demo = meta['demo_cmd']
